@@ -254,3 +254,88 @@ package lisp
 //@ frame callers((*Runtime).PopCondition) subset { opHandlerBind } property C05
 //@ frame callers((*Runtime).beginEval) subset { (*LEnv).Eval, (*LEnv).EvalContext, (*LEnv).EvalSExpr, (*LEnv).FunCall, (*LEnv).FunCallContext, (*LEnv).MacroCall, (*LEnv).SpecialOpCall, (*LEnv).load } property C05
 //@ frame callers((*LEnv).checkLimits) subset { (*LEnv).eval, (*LEnv).funCall, (*LEnv).specialOpCall, opDoTimes, opExpr } property C04
+
+// ---------------------------------------------------------------- C20: source loading confinement (library.go)
+
+//@ functype SourceContext.Location
+//@   pure
+//@   ensures result == uf("strLocation", arg0)
+//@ functype SourceContext.Name
+//@   pure
+
+//@ pred joinedLoc(ctx, loc) = ite(!ext("filepath.IsAbs", 0, loc) && uf("strLocation", ctx) != "", ext("filepath.Join", 0, ext("filepath.Dir", 0, uf("strLocation", ctx)), loc), loc)
+//@ pred realRoot(lib) = ext("filepath.EvalSymlinks", 0, ext("filepath.Clean", 0, lib.RootDir))
+
+//@ func (*RelativeFileSystemLibrary).LoadSource
+//@   strings smt
+//@   requires lib != nil
+//@   assert-at os.ReadFile [reads-cleaned-join-when-unconfined] lib.RootDir == "" ==> arg0 == ext("filepath.Clean", 0, joinedLoc(ctx, loc))
+//@   assert-at os.ReadFile [root-resolved] lib.RootDir != "" ==> ext("filepath.EvalSymlinks", 1, ext("filepath.Clean", 0, lib.RootDir)) == nil
+//@   assert-at os.ReadFile [reads-resolved-path] lib.RootDir != "" ==> uf("isRealPath", arg0) && arg0 == ext("filepath.EvalSymlinks", 0, ext("filepath.Clean", 0, joinedLoc(ctx, loc))) && ext("filepath.EvalSymlinks", 1, ext("filepath.Clean", 0, joinedLoc(ctx, loc))) == nil
+//@   assert-at os.ReadFile [inside-root-with-separator] lib.RootDir != "" ==> (arg0 == realRoot(lib) || hasPrefix(arg0, realRoot(lib) + "/"))
+//@   ensures  [reports-path-read] result3 == nil && lib.RootDir != "" ==> result1 == ext("filepath.EvalSymlinks", 0, ext("filepath.Clean", 0, joinedLoc(ctx, loc)))
+//@   property C20
+
+//@ pred fsJoined(ctx, loc) = ite(uf("strLocation", ctx) != "" && ext("filepath.Dir", 0, uf("strLocation", ctx)) != "." && ext("filepath.Dir", 0, uf("strLocation", ctx)) != "", ext("filepath.Join", 0, ext("filepath.Dir", 0, uf("strLocation", ctx)), loc), loc)
+
+//@ func (*FSLibrary).LoadSource
+//@   strings smt
+//@   requires lib != nil
+//@   assert-at ReadFile [normalised-unrooted] arg1 == ext("strings.TrimPrefix", 0, ext("filepath.ToSlash", 0, ext("filepath.Clean", 0, fsJoined(ctx, loc))), "/")
+//@   assert-at ReadFile [reads-own-fs] arg0 == lib.FS
+//@   property C20
+
+//@ frame callers(ext:os.ReadFile) subset { (*RelativeFileSystemLibrary).LoadSource } within lisp property C20
+//@ frame callers(ext:os.Open) subset { } within lisp property C20
+//@ frame callers(ext:os.OpenFile) subset { } within lisp property C20
+//@ frame callers(ext:io/ioutil.ReadFile) subset { } within lisp property C20
+//@ frame callers(ext:io/fs.ReadFile) subset { (*FSLibrary).LoadSource } within lisp property C20
+//@ frame callers((*RelativeFileSystemLibrary).LoadSource) subset { via-interface-in:(*LEnv).LoadFile, via-interface-in:(*LEnv).LoadFileContext } property C20
+
+//@ functype SourceLibrary.LoadSource
+//@   modifies nothing
+
+//@ func (*Runtime).sourceContext
+//@   requires r != nil && r.Stack != nil
+//@   ensures  [is-context] typeis(result, *sourceContext) && result.(*sourceContext) != nil
+//@   ensures  [from-top-frame] len(r.Stack.Frames) > 0 && r.Stack.Frames[len(r.Stack.Frames)-1].Source != nil ==> result.(*sourceContext).loc == r.Stack.Frames[len(r.Stack.Frames)-1].Source.Path && result.(*sourceContext).name == r.Stack.Frames[len(r.Stack.Frames)-1].Source.File
+//@   ensures  [no-frame] len(r.Stack.Frames) == 0 ==> result.(*sourceContext).loc == "" && result.(*sourceContext).name == ""
+//@   modifies nothing
+//@   property C20
+
+//@ func (*sourceContext).Location
+//@   requires c != nil
+//@   ensures  [is-loc] result == c.loc
+//@   modifies nothing
+//@   property C20
+
+//@ func (*LEnv).LoadFile
+//@   requires rtOK(env)
+//@   assert-at LoadSource [context-from-stack] arg0 == ret("sourceContext", 0)
+//@   assert-at LoadSource [asks-for-loc] arg1 == loc
+//@   assert-at LoadLocation [only-after-library-success] ret("LoadSource", 3) == nil
+//@   assert-at LoadLocation [evaluates-what-library-named] arg1 == ret("LoadSource", 0) && arg2 == ret("LoadSource", 1)
+//@   assert-at NewReader [evaluates-library-bytes] arg0 == ret("LoadSource", 2)
+//@   property C20
+
+//@ func (*LEnv).LoadFileContext
+//@   requires rtOK(env)
+//@   assert-at LoadSource [context-from-stack] arg0 == ret("sourceContext", 0)
+//@   assert-at LoadSource [asks-for-loc] arg1 == loc
+//@   assert-at LoadLocationContext [only-after-library-success] ret("LoadSource", 3) == nil
+//@   assert-at LoadLocationContext [evaluates-what-library-named] arg2 == ret("LoadSource", 0) && arg3 == ret("LoadSource", 1)
+//@   assert-at NewReader [evaluates-library-bytes] arg0 == ret("LoadSource", 2)
+//@   property C20
+
+//@ func (*LEnv).root
+//@   requires env != nil
+//@   loop 1 (env) invariant env != nil
+//@   ensures  [is-root] result != nil && result.parent == nil
+//@   modifies nothing
+//@   property C20
+
+//@ func builtinLoadFile
+//@   requires rtOK(env) && args != nil
+//@   assert-at LoadFile [loads-in-root-env] arg0.parent == nil
+//@   assert-at LoadFile [loads-named-location] arg1 == args.Cells[0].Str
+//@   property C20
